@@ -25,11 +25,11 @@ def run(ctx, rep):
     rep.notes.append('C05: every clause is a mechanism: the arg-min idiom over the KS statistic with failures skipped, the '
                      'candidate enumeration by tags, the per-column lookup, the Gaussian fallback and fresh-instance creation. '
                      'Which family actually wins on given data is a runtime value and is not decided.')
-    d1_d3(ctx, rep)
-    d4(ctx, rep)
-    d5(ctx, rep)
-    d6(ctx, rep)
-    l6(ctx, rep, rule='D7.clone')
+    rep.guarded('D1.d1_d3', d1_d3, ctx, rep)
+    rep.guarded('D4.d4', d4, ctx, rep)
+    rep.guarded('D5.d5', d5, ctx, rep)
+    rep.guarded('D6.d6', d6, ctx, rep)
+    rep.guarded('L6.l6', l6, ctx, rep, rule='D7.clone')
 
 
 def d1_d3(ctx, rep):
